@@ -79,9 +79,10 @@ type KnownFinding struct {
 	Property  string `json:"property"`
 	Rule      string `json:"rule"`
 	Construct string `json:"construct"`
-	Status    string `json:"status"` // known | fixed
+	Status    string `json:"status"` // known | fixed | known-dynamic
 	Commit    string `json:"commit,omitempty"`
 	What      string `json:"what"`
+	Demo      string `json:"demo,omitempty"` // known-dynamic: the demonstration under /verif (hunt/Hxx/fN)
 }
 
 func loadKnown(verifDir string) ([]KnownFinding, error) {
